@@ -39,6 +39,11 @@ def env_of(v):
 
 
 def nondefault_header_opts(v, job):
+    """True when the deviation occurs only with some header option on (never with all of them off)."""
+    preset_on = set(k[4:] for k, val in (job.get("preset") or {}).items() if val)
+    ons = v.get("options_on")
+    if ons is not None and len(ons) < 250:
+        return all((set(on) | preset_on) & set(HEADER_OPTS) for on in ons) if ons else bool(preset_on & set(HEADER_OPTS))
     env = dict(env_of(v))
     for k, val in (job.get("preset") or {}).items():
         env.setdefault(k, val)
@@ -127,6 +132,13 @@ def properties_of(v, job):
                 out.add("C10")
                 out.add("C17")
     return out
+
+
+def norm_detail(d):
+    """Detail text without position-token names (they differ between roots and profiles)."""
+    d = re.sub(r"-?\b[BTE]\d*\b( \+ )?", "<pos>", d)
+    d = re.sub(r"cursor[+-]\d+", "<pos>", d)
+    return re.sub(r"(<pos>)+( \+ -?\d+)?", "<pos>", d)
 
 
 def violation_key(v, job):
